@@ -35,6 +35,14 @@ pub fn check(sc: &Scenario, ex: &Exec, a: &Analysis) -> Vec<Violation> {
         }
     }
 
+    // (c) all bytes flushed: a buffering transport must not be left with accepted-but-unflushed
+    // bytes once the connection has gone quiet
+    if ex.io.staged > 0 && !ex.horizon_hit && ex.io.fault.is_none() && !ex.io.reset {
+        v.push(viol(P, "c", "bytes-accepted-but-never-flushed", format!(
+            "{} response bytes were accepted by the (buffering) transport but poll_flush was never driven to completion: the peer never receives them (connection result {:?})",
+            ex.io.staged, ex.done)));
+    }
+
     // (c) every response byte exactly once and in order: the accepted stream is a sequence of
     // well-formed messages whose bodies are what the handlers produced
     if let Some((off, what)) = &a.parsed.garbage {
@@ -173,6 +181,21 @@ pub fn scenarios(_tier: &str) -> Vec<Scenario> {
     add("get-large-stream-smallbuf", vec![RequestSpec::new("GET", 0)], vec![big_stream(3_000, 5)], &|s| s.config.write_buf = 1024);
     add("get-large-bytes", vec![RequestSpec::new("GET", 0)], vec![HandlerProgram::ok(BodySpec::Bytes(data(70_000, 3)))], &nop);
     add("get-body-err", vec![RequestSpec::new("GET", 0)], vec![HandlerProgram::ok(BodySpec::BodyStream(vec![Chunk::Data(b"ab".to_vec()), Chunk::Pending, Chunk::Err]))], &nop);
+    // a transport that buffers internally (TLS-like): poll_flush must be driven to completion
+    for (n, reqs, progs) in [
+        ("get", vec![RequestSpec::new("GET", 0)], vec![ok_bytes()]),
+        ("get-close", vec![RequestSpec::new("GET", 0).conn("close")], vec![ok_bytes()]),
+        ("get-stream-pend", vec![RequestSpec::new("GET", 0)], vec![HandlerProgram::ok(BodySpec::BodyStream(vec![Chunk::Data(b"he".to_vec()), Chunk::Pending, Chunk::Data(b"llo".to_vec())]))]),
+        ("pipe-2", vec![RequestSpec::new("GET", 0), RequestSpec::new("GET", 1)], vec![ok_bytes().pend(1), ok_bytes()]),
+        ("post-readall", vec![RequestSpec::new("POST", 0).cl(&data(64, 1))], vec![ok_bytes()]),
+        ("malformed", vec![RequestSpec::new("POST", 0).malformed(Malformed::ClAndTe)], vec![ok_bytes()]),
+    ] {
+        add(&format!("buffered-io-{n}"), reqs.clone(), progs.clone(), &|s| s.io.buffered = true);
+        add(&format!("buffered-io-{n}-peer-stays"), reqs, progs, &|s| {
+            s.io.buffered = true;
+            s.fin = FinPlan::Never;
+        });
+    }
     // request bodies
     add("post-cl-readall", vec![RequestSpec::new("POST", 0).cl(&data(64, 1))], vec![ok_bytes()], &nop);
     add("post-chunked-readall", vec![RequestSpec::new("POST", 0).chunked(vec![ChunkSpec::plain(&data(10, 1)), ChunkSpec::plain(&data(7, 2))])], vec![ok_bytes()], &nop);
